@@ -28,7 +28,9 @@
   C06.W  upvalue indices are per function: when resolve_upvalue finds the variable as an upvalue of the enclosing function it
          registers an upvalue of its own (add_upvalue(.., false, function_id)) and returns THAT index; the enclosing
          function's index is never handed to the inner function (every `Variable::Upvalue(i)` built in resolve_upvalue takes
-         i from add_upvalue, and the branch that saw an Upvalue from the recursive call leaves through its own return).
+         i from add_upvalue, and the branch / match arm that saw an Upvalue from the recursive call yields its own index; in
+         the iterative form the returned index is the last link of the chain add_upvalue(.., X), add_upvalue(.., X+1) ..
+         add_upvalue(.., function_id)).
   C06.U  scope / compile brackets balanced (= C01.S, shared).
 """
 from cao.facts import (AnchorMissing, callee_names, short, op_local, op_place, DefUse, hir_walk, hir_callee, hir_strip, hir_local_id,
@@ -316,22 +318,39 @@ def function_index_is_module_local(F):
     return local, src_param, handle_param
 
 
+def closure_label_inserts(F):
+    """the insertions into the label table made on behalf of a Closure card: `<..>.labels.0.insert(key, ..)` calls in the
+    Closure arm of process_card or in the Compiler methods that arm calls (the arm may be a one-line call of a private
+    method; process_card / compile_subexpr - the compilation of child cards - are not entered). -> [(function, call node)]"""
+    from rules.c10 import arm_labels
+    f = F.fn("compiler::Compiler::process_card")
+    labels = arm_labels(f)
+    out = []
+    seen = {f.short, "compiler::Compiler::compile_subexpr"}
+    work = [(f, [x for x in hir_walk(f.hir["body"]) if labels.get(id(x)) == "Closure"])]
+    while work:
+        g, nodes = work.pop(0)
+        for x in nodes:
+            if x.get("k") == "mcall" and x["name"] == "insert":
+                fc = hu.field_chain(x["recv"])
+                if fc and fc[1][-2:] == ["labels", "0"]:
+                    out.append((g, x))
+            if x.get("k") in ("call", "mcall"):
+                for n in hir_callee(x):
+                    h = F.fn(n, required=False)
+                    if h is not None and h.hir is not None and not h.is_closure and n.startswith("compiler::Compiler::") and n not in seen:
+                        seen.add(n)
+                        work.append((h, list(hir_walk(h.hir["body"]))))
+    if not out:
+        raise AnchorMissing("label insertion in the Closure arm of process_card")
+    return out
+
+
 def rule_l(F):
     res = []
-    f = F.fn("compiler::Compiler::process_card")
-    # label insertions inside the Closure arm
-    from rules.c10 import arm_labels
-    labels = arm_labels(f)
-    inserts = []
-    for x in hir_walk(f.hir["body"]):
-        if x.get("k") == "mcall" and x["name"] == "insert":
-            fc = hu.field_chain(x["recv"])
-            if fc and fc[1][-2:] == ["labels", "0"] and labels.get(id(x)) == "Closure":
-                inserts.append(x)
-    if not inserts:
-        raise AnchorMissing("label insertion in the Closure arm of process_card")
+    inserts = closure_label_inserts(F)
     local, _sp, _hp = function_index_is_module_local(F)
-    for n, x in enumerate(inserts):
+    for n, (f, x) in enumerate(inserts):
         lv = expr_leaves(f, x["args"][0])
         key = "C06/L/process_card[Closure]/label-key-is-program-unique"
         wide = [l for l in lv if any(w in l for w in ("handle", "namespace", "current_function", "function_handle", "next_closure"))
@@ -355,6 +374,47 @@ def rule_l(F):
 
 UNWRAPS = ("unwrap", "expect", "unwrap_unchecked", "as_ref", "as_mut", "deref", "deref_mut", "borrow", "borrow_mut", "clone", "into", "from",
            "try_from", "try_into", "branch", "ok_or", "ok_or_else", "ok", "copied", "cloned")
+
+
+def _address_helper_index_param(F, names, depth=0):
+    """for a crate function that returns `<base pointer>.add(i)` / `&slice[i]` with i one of its parameters: the number of
+    that parameter (MIR local), else None"""
+    for n in names:
+        g = F.fn(n, required=False)
+        if g is None or not g.mir or g.is_closure or not g.local_ty(0).lstrip().startswith(("*const", "*mut", "&")) or depth > 2:
+            continue
+        du = DefUse(g)
+        cur = 0
+        for _ in range(10):
+            d = du.sole_def(cur)
+            if d is None:
+                break
+            if d[2] == "call":
+                nm = callee_names(d[3]["func"])
+                last = [x.rsplit("::", 1)[-1] for x in nm]
+                if any(x in ("add", "offset", "wrapping_add", "get_unchecked", "get_unchecked_mut") for x in last) and len(d[3]["args"]) == 2:
+                    l = op_local(d[3]["args"][1])
+                    k, payload = du.trace_back(l) if l is not None else (None, None)
+                    return payload if k == "arg" else None
+                if d[3]["args"] and op_local(d[3]["args"][0]) is not None and any(x in ("cast", "cast_mut", "cast_const") + UNWRAPS for x in last):
+                    cur = op_local(d[3]["args"][0])
+                    continue
+                break
+            rv = d[3]["rv"]
+            if rv["k"] in ("ref", "rawptr"):
+                idx = [e for e in rv["place"]["p"] if e["k"] == "index"]
+                if len(idx) == 1:
+                    k, payload = du.trace_back(idx[0]["local"])
+                    return payload if k == "arg" else None
+                if not idx and all(e["k"] == "deref" for e in rv["place"]["p"]):
+                    cur = rv["place"]["l"]
+                    continue
+                break
+            if rv["k"] in ("use", "cast") and op_local(rv["op"]) is not None:
+                cur = op_local(rv["op"])
+                continue
+            break
+    return None
 
 
 def _return_ranges_coincide(F, f, closer):
@@ -467,6 +527,10 @@ def _return_ranges_coincide(F, f, closer):
                 return d[3]["args"][1]
             if any(x in ("cast", "cast_mut", "cast_const", "as_ptr", "as_mut_ptr", "from_ref", "from_mut") + UNWRAPS for x in last) and d[3]["args"]:
                 return index_of_address(d[3]["args"][0], depth + 1)
+            # a crate helper that computes the address of slot <parameter> (`stack_slot_location(vm, index)`)
+            pi = _address_helper_index_param(F, nm)
+            if pi is not None and pi - 1 < len(d[3]["args"]):
+                return d[3]["args"][pi - 1]
             return None
         rv = d[3]["rv"]
         if rv["k"] in ("ref", "rawptr"):
@@ -584,14 +648,36 @@ def rule_r(F):
         v = instr_ctor(e) if e is not None else None
         return v if isinstance(v, str) else None
 
-    def captured_test(c):
-        """(is a test of Local.captured, negated)"""
+    def derives_captured(fn_, e, depth=0):
+        """the expression is the `captured` flag of a Local: the field itself, or a local whose single initialiser yields it on
+        every path that continues (`match last() { Some(v) if .. => v.captured, _ => break }`)"""
+        e = hu.strip_casts(e)
+        if e is None or depth > 4:
+            return False
+        k = e.get("k")
+        if k == "field":
+            return e["name"] == "captured"
+        if k == "path" and e["path"]["res"].get("k") == "local":
+            inits = hu.let_inits(fn_).get(e["path"]["res"]["id"], [])
+            return len(inits) == 1 and derives_captured(fn_, inits[0], depth + 1)
+        if k == "block" and e["block"].get("expr") is not None:
+            return derives_captured(fn_, e["block"]["expr"], depth + 1)
+        if k in ("match", "if"):
+            outs = [a["body"] for a in e["arms"]] if k == "match" else [e["then"], e.get("else")]
+            live = [o for o in outs if o is not None and hir_strip(o).get("ty") != "!"]
+            return bool(live) and all(derives_captured(fn_, o, depth + 1) for o in live)
+        return False
+
+    def captured_test(fn_, c, cap_params=()):
+        """(is a test of Local.captured, negated); cap_params: parameters of a helper that receive the flag at every call"""
         c = hu.strip_casts(c)
         neg = False
         while c is not None and c.get("k") == "un" and c["op"] == "Not":
             neg = not neg
             c = hu.strip_casts(c["e"])
-        return (c is not None and c.get("k") == "field" and c["name"] == "captured"), neg
+        if c is not None and hir_local_id(c) in cap_params:
+            return True, neg
+        return derives_captured(fn_, c), neg
 
     def selects_emitted_instruction(node):
         """the value of `node` is what a push_instruction pushes: directly, or through a local initialised once with it"""
@@ -604,30 +690,59 @@ def rule_r(F):
                     return True
         return False
 
-    found = None
-    for x in hir_walk(g.hir["body"]):
-        branches = None
-        if x.get("k") == "if":
-            is_cap, neg = captured_test(x["cond"])
-            if is_cap:
-                branches = (x["then"], x.get("else")) if not neg else (x.get("else"), x["then"])
-        elif x.get("k") == "match" and captured_test(x["scrut"])[0] and not captured_test(x["scrut"])[1]:
-            yes = no = None
-            for a in x["arms"]:
-                lit = a["pat"].get("lit", {}).get("v") if a["pat"].get("k") == "expr" else None
-                if lit is True:
-                    yes = a["body"]
-                elif lit is False or a["pat"].get("k") in ("wild", "bind"):
-                    no = a["body"] if no is None else no
-            if yes is not None:
-                branches = (yes, no)
-        if branches is None:
+    def returns_value_of(h, node):
+        """`node` is the value the helper h returns (tail expression of its body)"""
+        e = hir_strip(h.hir["body"])
+        while e is not None and e.get("k") == "block" and e["block"].get("expr") is not None:
+            if e is node:
+                return True
+            e = hir_strip(e["block"]["expr"])
+        return e is node
+
+    # where to look: scope_end itself, and helpers it calls that are handed the flag (`Self::drop_instruction(captured)`)
+    places = [(g, (), None)]
+    for y in hir_walk(g.hir["body"]):
+        if y.get("k") not in ("call", "mcall"):
             continue
-        t, e = branches
-        em = (emitted(t) if t is not None else [], emitted(e) if e is not None else [])
-        if not em[0] and not em[1] and t is not None and e is not None and value_ctor(t) and value_ctor(e) and selects_emitted_instruction(x):
-            em = ([value_ctor(t)], [value_ctor(e)])
-        found = em
+        for n in hir_callee(y):
+            h = F.fn(n, required=False)
+            if h is None or h.hir is None or h.is_closure or h is g or not n.startswith("compiler::Compiler::"):
+                continue
+            args = ([y["recv"]] if y.get("k") == "mcall" else []) + list(y["args"])
+            cap = []
+            for a_, p_ in zip(args, h.hir.get("params", [])):
+                if p_.get("k") == "bind" and derives_captured(g, a_):
+                    cap.append(p_["id"])
+            if cap:
+                places.append((h, tuple(cap), y))
+    found = None
+    for h, cap_params, call_site in places:
+        for x in hir_walk(h.hir["body"]):
+            branches = None
+            if x.get("k") == "if":
+                is_cap, neg = captured_test(h, x["cond"], cap_params)
+                if is_cap:
+                    branches = (x["then"], x.get("else")) if not neg else (x.get("else"), x["then"])
+            elif x.get("k") == "match" and not str(x.get("source", "")).startswith(("TryDesugar", "ForLoopDesugar")) \
+                    and captured_test(h, x["scrut"], cap_params) == (True, False):
+                yes = no = None
+                for a in x["arms"]:
+                    lit = a["pat"].get("lit", {}).get("v") if a["pat"].get("k") == "expr" else None
+                    if lit is True:
+                        yes = a["body"]
+                    elif lit is False or a["pat"].get("k") in ("wild", "bind"):
+                        no = a["body"] if no is None else no
+                if yes is not None:
+                    branches = (yes, no)
+            if branches is None:
+                continue
+            t, e = branches
+            em = (emitted(t) if t is not None else [], emitted(e) if e is not None else [])
+            if not em[0] and not em[1] and t is not None and e is not None and value_ctor(t) and value_ctor(e):
+                if (h is g and selects_emitted_instruction(x)) or \
+                        (h is not g and returns_value_of(h, x) and selects_emitted_instruction(call_site)):
+                    em = ([value_ctor(t)], [value_ctor(e)])
+            found = em
     if found is None:
         res.append(undecided("C06.R", "C06/R/scope_end/captured-locals-are-closed", g.loc(), "branch on Local.captured not found"))
     elif found[0] == ["CloseUpvalue"] and found[1] == ["Pop"]:
@@ -832,18 +947,8 @@ def _field_sources(F, owner, field, depth, seen):
 
 def rule_x(F):
     res = []
-    f = F.fn("compiler::Compiler::process_card")
-    from rules.c10 import arm_labels
-    labels = arm_labels(f)
-    inserts = []
-    for x in hir_walk(f.hir["body"]):
-        if x.get("k") == "mcall" and x["name"] == "insert":
-            fc = hu.field_chain(x["recv"])
-            if fc and fc[1][-2:] == ["labels", "0"] and labels.get(id(x)) == "Closure":
-                inserts.append(x)
-    if not inserts:
-        raise AnchorMissing("label insertion in the Closure arm of process_card")
-    for x in inserts:
+    inserts = closure_label_inserts(F)
+    for f, x in inserts:
         key = "C06/X/process_card[Closure]/label-components-cannot-cancel"
         lv = xor_leaves(F, f, x["args"][0])
         groups = {}
@@ -1163,6 +1268,101 @@ def rule_n(F):
     return res
 
 
+def pat_bindings_(p):
+    from cao.facts import pat_bindings
+    return pat_bindings(p)
+
+
+def _iterative_upvalue_chain(F, f, ctors, key2):
+    """resolve_upvalue without recursion: the index it returns for the requesting function (its integer parameter) must be
+    the result of add_upvalue(.., <that function>). Accepted: every assignment of the returned index comes from
+    add_upvalue(.., function_id); or the chain `u = add_upvalue(.., X); for inner in X+1 ..= function_id { u = add_upvalue(u, .., inner) }`
+    whose last link is function_id itself (when the loop does not run, X == function_id). An exclusive range ending at
+    function_id stops one function short."""
+    res = []
+    inits = hu.let_inits(f)
+    au = F.fn("compiler::Compiler::add_upvalue")
+    # which argument of add_upvalue is the function the upvalue list belongs to: the parameter that indexes self.upvalues
+    fid_pos = None
+    pids = [p_.get("id") for p_ in au.hir.get("params", [])]
+    for x in hir_walk(au.hir["body"]):
+        if x.get("k") == "index":
+            fc = hu.field_chain(x["e"])
+            lid = hir_local_id(hu.strip_all(x["idx"]))
+            if fc and fc[1][-1:] == ["upvalues"] and lid in pids:
+                fid_pos = pids.index(lid)
+    me = [p_["id"] for p_ in f.hir.get("params", []) if p_.get("k") == "bind" and p_.get("ty") in ("usize", "u32", "u64")]
+    if fid_pos is None or len(me) != 1:
+        return [undecided("C06.W", key2, f.loc(), "could not identify the function-id arguments of add_upvalue / resolve_upvalue")]
+    me = me[0]
+    # loop variables of `for v in lo..hi` / `lo..=hi`
+    ranges = {}
+    for x in hir_walk(f.hir["body"]):
+        if x.get("k") == "match" and str(x.get("source", "")).startswith("ForLoopDesugar"):
+            sc = hir_strip(x["scrut"])
+            it = hir_strip(sc["args"][0]) if sc.get("k") == "call" and sc["args"] else None
+            if it is None:
+                continue
+            lo = hi = incl = None
+            if it.get("k") == "call" and any(n.endswith("RangeInclusive::new") for n in hir_callee(it)) and len(it["args"]) == 2:
+                lo, hi, incl = it["args"][0], it["args"][1], True
+            elif it.get("k") == "struct" and short(it["path"]["res"].get("path", "")).endswith("Range"):
+                fl = {q["name"]: q["e"] for q in it["fields"]}
+                lo, hi, incl = fl.get("start"), fl.get("end"), False
+            if lo is None:
+                continue
+            for y in hir_walk(x):
+                if y is not x and y.get("k") == "match" and str(y.get("source", "")).startswith("ForLoopDesugar"):
+                    for a_ in y["arms"]:
+                        for bid, _n in pat_bindings_(a_["pat"]):
+                            ranges[bid] = (lo, hi, incl)
+                    break
+
+    def fid_arg(e):
+        """add_upvalue call behind an initialiser (through `?`) -> its function-id argument expression"""
+        for y in hir_walk(e):
+            if y.get("k") == "mcall" and any(n.endswith("Compiler::add_upvalue") for n in hir_callee(y)):
+                args = [y["recv"]] + list(y["args"])
+                return args[fid_pos] if fid_pos < len(args) else None
+        return None
+    verdict = "ok"
+    why = ""
+    for x, _good in ctors:
+        lid = hir_local_id(hu.strip_all(x["args"][0])) if x.get("k") == "call" else None
+        es = inits.get(lid, []) if lid is not None else []
+        fids = [hu.strip_all(fid_arg(e)) if fid_arg(e) is not None else None for e in es]
+        if not es or any(a_ is None for a_ in fids):
+            verdict, why = "undecided", "the returned index is not assigned from add_upvalue calls only"
+            break
+        ids = [hir_local_id(a_) for a_ in fids]
+        if all(i == me for i in ids):
+            continue
+        loopv = [i for i in ids if i in ranges]
+        plain = [i for i in ids if i not in ranges]
+        if len(loopv) == 1 and len(plain) == 1 and plain[0] is not None:
+            lo, hi, incl = ranges[loopv[0]]
+            lo_ = hu.strip_all(lo)
+            starts_after = lo_.get("k") == "bin" and lo_["op"] == "Add" and hir_local_id(hu.strip_all(lo_["l"])) == plain[0] and \
+                hu.is_int_lit(lo_["r"]) and hu.int_lit(lo_["r"]) == 1
+            ends_at_me = hir_local_id(hu.strip_all(hi)) == me
+            if starts_after and ends_at_me and incl:
+                continue
+            if starts_after and ends_at_me and not incl:
+                verdict, why = "bad", "the chain of non-local upvalues stops one function short (`..function_id` excludes the requesting function)"
+                break
+        verdict, why = "undecided", "the function the returned upvalue index belongs to is not established"
+        break
+    if verdict == "ok":
+        res.append(ok("C06.W", key2, f.loc(), "no recursive lookup: the returned index is add_upvalue's result for the requesting function "
+                      "(chain of non-local upvalues up to and including function_id)"))
+    elif verdict == "bad":
+        res.append(bad("C06.W", key2, f.loc(), "resolve_upvalue returns an upvalue index of an ENCLOSING function: " + why +
+                       "; the inner closure's ReadUpvalue/SetUpvalue operand indexes into the wrong upvalue list"))
+    else:
+        res.append(undecided("C06.W", key2, f.loc(), why))
+    return res
+
+
 def rule_w(F):
     res = []
     f = F.fn("compiler::Compiler::resolve_upvalue")
@@ -1208,8 +1408,62 @@ def rule_w(F):
             if c.get("k") == "let" and any(hir_local_id(y) in rec_locals for y in hir_walk(c["init"]) if y.get("k") == "path") and \
                     "Upvalue" in str(c.get("pat")):
                 tests.append(x)
-    if not rec_locals:
-        res.append(ok("C06.W", key2, f.loc(), "no recursive lookup"))
+    from cao.facts import hir_children
+    rec_calls = [y for y in hir_walk(f.hir["body"]) if y.get("k") in ("mcall", "call") and any(n.endswith("Compiler::resolve_upvalue") for n in hir_callee(y))]
+    parent = {}
+    for y in hir_walk(f.hir["body"]):
+        for c in hir_children(y):
+            if c is not None:
+                parent[id(c)] = y
+
+    def consumer(node):
+        """the node that uses the value of a recursive call: `?`, wrappers and blocks are looked through"""
+        cur = node
+        while True:
+            p_ = parent.get(id(cur))
+            if p_ is None:
+                return None, cur
+            k = p_.get("k")
+            if k in ("drop_temps", "use", "type", "cast", "addr_of") or (k == "block" and p_["block"].get("expr") is cur):
+                cur = p_
+                continue
+            if k == "call" and any(n.endswith("Try::branch") for n in hir_callee(p_)):
+                cur = p_
+                continue
+            if k == "match" and str(p_.get("source", "")).startswith("TryDesugar") and p_["scrut"] is cur:
+                cur = p_
+                continue
+            return p_, cur
+    bound = set()
+    for lid, exprs in inits.items():
+        for e in exprs:
+            if any(y is r for r in rec_calls for y in hir_walk(e)):
+                bound.add(lid)
+    unbound = [r for r in rec_calls if not any(y is r for lid in bound for e in inits[lid] for y in hir_walk(e))]
+    if not rec_calls:
+        res += _iterative_upvalue_chain(F, f, ctors, key2)
+    elif unbound:
+        for r in unbound:
+            user, val = consumer(r)
+            arms_up = []
+            if user is not None and user.get("k") == "match" and user["scrut"] is val:
+                arms_up = [a_ for a_ in user["arms"] if "Variable::Upvalue" in str(a_["pat"])]
+            if not arms_up:
+                res.append(bad("C06.W", key2, f.loc(r.get("ln")),
+                               "resolve_upvalue returns what the lookup in the enclosing function returned without testing for Variable::Upvalue: an "
+                               "upvalue index of the enclosing function is used as an index into the inner function's own upvalue list"))
+                continue
+            for a_ in arms_up:
+                mine = [x for x in hir_walk(a_["body"]) if x.get("k") == "call" and any(n.endswith("compiler::Variable::Upvalue") for n in hir_callee(x)) and x["args"]]
+                payload = set(i for i, _n in pat_bindings_(a_["pat"]))
+                passes_on = [x for x in mine if hir_local_id(hu.strip_all(x["args"][0])) in payload] or \
+                    (hir_local_id(hu.strip_all(a_["body"])) is not None)
+                if mine and all(from_add_upvalue(x["args"][0]) for x in mine) and not passes_on:
+                    res.append(ok("C06.W", key2, f.loc(a_["body"].get("ln")), "the arm that saw an upvalue of the enclosing function registers and returns its own index"))
+                else:
+                    res.append(bad("C06.W", key2, f.loc(a_["body"].get("ln")),
+                                   "the arm that saw an upvalue of the enclosing function returns the ENCLOSING function's upvalue index: "
+                                   "the inner closure's ReadUpvalue/SetUpvalue operand indexes past (or into the wrong slot of) its own upvalue list"))
     elif not tests:
         res.append(bad("C06.W", key2, f.loc(),
                        "resolve_upvalue returns what the lookup in the enclosing function returned without testing for Variable::Upvalue: an "
